@@ -122,8 +122,8 @@ fn read_field_type(chars: &mut Peekable<Chars>) -> Result<Type> {
 					char = chars.next().ok_or_else(|| anyhow!("unexpected abrupt ending of descriptor"))?;
 				}
 
-				// SAFETY: Between `L` and `;` in an descriptor is always a valid object class name.
-				let class_name = unsafe { ObjClassName::from_inner_unchecked(s) };
+				let class_name = ObjClassName::try_from(s)
+					.context("the class name between `L` and `;` in a descriptor must be a valid object class name")?;
 				Type::Object(class_name)
 			},
 			x => {
@@ -153,9 +153,9 @@ fn read_field_type(chars: &mut Peekable<Chars>) -> Result<Type> {
 					char = chars.next().ok_or_else(|| anyhow!("unexpected abrupt ending of descriptor"))?;
 				}
 
-				// SAFETY: Between `L` and `;` in an descriptor is always a valid class name.
-				let class_name = unsafe { ClassName::from_inner_unchecked(s) };
-				Type::Array(array_dimension, ArrayType::Object(class_name))
+				let class_name = ObjClassName::try_from(s)
+					.context("the class name between `L` and `;` in a descriptor must be a valid object class name")?;
+				Type::Array(array_dimension, ArrayType::Object(class_name.into()))
 			},
 			x => {
 				bail!("unexpected char {x:?} in descriptor");
